@@ -1,4 +1,5 @@
 import PySMT.Proofs.C08AgreeHead2
+import PySMT.Proofs.C08AgreeRot
 /-!
 # C08/C09 agreement: the induction steps, one per syntactic form
 -/
@@ -8,26 +9,27 @@ open PySMT PySMT.Parser PySMT.Std PySMT.Sexp
 /-- the agreement statement for one text: whatever the standard reads in a corresponding environment, the parser reads
 the same term (normalised), keeps the manager within `ρ`, and the value satisfies the invariant -/
 def AgreeAt (env : SEnv) (ρ : List (String × Sym)) (s : Sexp) : Prop :=
-  ∀ (sc : List Binding) (Γ : PEnv) (lone : Bool), Corr env sc Γ → MgrLe Γ.mgr ρ →
+  ∀ (sc : List Binding) (Γ : PEnv) (lone : Bool), Corr env sc Γ → MgrLe Γ.mgr ρ → RotOK env sc s = true →
     ∀ u τ, rd env sc s = .ok (u, τ) →
       ∃ σ', rdVal Γ lone s = .ok (.term (mkNorm u), σ') ∧ MgrLe σ' ρ ∧ TOK (mkNorm u) τ
 
 def AgreeListAt (env : SEnv) (ρ : List (String × Sym)) (l : List Sexp) : Prop :=
-  ∀ (sc : List Binding) (Γ : PEnv), Corr env sc Γ → MgrLe Γ.mgr ρ →
+  ∀ (sc : List Binding) (Γ : PEnv), Corr env sc Γ → MgrLe Γ.mgr ρ → RotOKL env sc l = true →
     ∀ as, rdList env sc l = .ok as →
       ∃ σ', rdArgs Γ l = .ok ((nargs as).map .term, σ') ∧ MgrLe σ' ρ ∧ ∀ a ∈ as, TOK (mkNorm a.1) a.2
 
 /-! ## argument lists -/
 
 theorem agreeL_nil (env : SEnv) (ρ : List (String × Sym)) : AgreeListAt env ρ [] := by
-  intro sc Γ _ hm as h
+  intro sc Γ _ hm _ as h
   simp only [rdList, Except.ok.injEq] at h
   subst h
   exact ⟨Γ.mgr, by rw [rdArgs_nil]; rfl, hm, by simp⟩
 
 theorem agreeL_cons (env : SEnv) (ρ : List (String × Sym)) (s : Sexp) (r : List Sexp)
     (h1 : AgreeAt env ρ s) (h2 : AgreeListAt env ρ r) : AgreeListAt env ρ (s :: r) := by
-  intro sc Γ hc hm as h
+  intro sc Γ hc hm hro as h
+  rw [RotOKL_cons, Bool.and_eq_true] at hro
   simp only [rdList] at h
   cases hs : rd env sc s with
   | error e => simp [hs] at h
@@ -38,8 +40,8 @@ theorem agreeL_cons (env : SEnv) (ρ : List (String × Sym)) (s : Sexp) (r : Lis
       simp only [hs, hr, Except.ok.injEq] at h
       subst h
       obtain ⟨u, τ⟩ := t
-      obtain ⟨σ1, hv, hm1, htok⟩ := h1 sc Γ false hc hm u τ hs
-      obtain ⟨σ2, hvs, hm2, htoks⟩ := h2 sc { Γ with mgr := σ1 } (corr_mgr hc σ1) hm1 ts hr
+      obtain ⟨σ1, hv, hm1, htok⟩ := h1 sc Γ false hc hm hro.1 u τ hs
+      obtain ⟨σ2, hvs, hm2, htoks⟩ := h2 sc { Γ with mgr := σ1 } (corr_mgr hc σ1) hm1 hro.2 ts hr
       refine ⟨σ2, ?_, hm2, ?_⟩
       · rw [rdArgs]
         simp only [hv, hvs]
@@ -74,14 +76,51 @@ theorem rdList_length {env : SEnv} {sc : List Binding} : ∀ {l : List Sexp} {as
         subst h
         simp [rdList_length hr]
 
+/-- from the side condition `rotHeadOK` to the fact the rotation lemmas need -/
+theorem rot_of_headOK (env : SEnv) (sc : List Binding) (hd args : List Sexp) (as : List TT)
+    (hro : rotHeadOK env sc hd args = true) (hl : rdList env sc args = .ok as) (u : Term) (τ : Ty)
+    (hap : applyHead env hd as = .ok (u, τ)) :
+    ∀ f k kk, hd = [.atom "_", .atom f, .atom k] → (f = "rotate_left" ∨ f = "rotate_right") →
+      numeral? k = some kk → ∀ a ∈ as, ∀ m, a.2 = .bv m → kk ≤ m := by
+  intro f k kk hhd hf' hk a ha m hm2
+  subst hhd
+  have hlen := rdList_length hl
+  have hir : isRot f = true := by rcases hf' with rfl | rfl <;> decide
+  match args, as, hlen, hl, ha with
+  | [x], [a'], _, hl, ha =>
+    have hx := rdList_one hl
+    have hro1 := hro
+    simp only [List.mem_singleton] at ha
+    subst ha
+    obtain ⟨a1, a2⟩ := a
+    simp only at hm2
+    subst hm2
+    simp only [rotHeadOK, beq_self_eq_true, hir, Bool.and_self, if_true, hx, hk, decide_eq_true_eq] at hro1
+    exact hro1
+  | [], [], _, _, ha => simp at ha
+  | _ :: _ :: _, _ :: _ :: _, _, hl, ha =>
+    -- a rotation takes one argument: the standard rejects other numbers
+    exfalso
+    simp only [applyHead, (by rcases hf' with rfl | rfl <;> first | exact pyTok_rot.2.2.1 | exact pyTok_rot.2.2.2 :
+      symName? f = some f)] at hap
+    cases hidx : indices [Sexp.atom k] with
+    | none => simp [hidx] at hap
+    | some ns =>
+      obtain ⟨nk, _, rfl⟩ := indices_one hidx
+      simp only [hidx, List.isEmpty_cons, Bool.false_eq_true, if_false] at hap
+      rcases hf' with rfl | rfl <;> simp [applyIndexed] at hap
+
+
 /-- `(f args…)` for a theory symbol of the fragment -/
 theorem agree_app (env : SEnv) (ρ : List (String × Sym)) (f : String) (args : List Sexp) (hf : f ∈ fragOps)
     (har : arityOK f args.length = true) (hmin : minusOK f args = true) (hL : AgreeListAt env ρ args) :
     AgreeAt env ρ (.list (.atom f :: args)) := by
-  intro sc Γ lone hc hm u τ h
+  intro sc Γ lone hc hm hro u τ h
   have hfacts := fragOps_facts f hf
+  obtain ⟨_, _, _, e1, e2, e3, _⟩ := opTok_unpack hfacts
+  rw [RotOK_app env sc f args e1 (by simp [e2, e3])] at hro
   obtain ⟨as, hl, hne, hap⟩ := rd_app_inv env sc f hfacts args u τ h
-  obtain ⟨σ', hargs, hm', htoks⟩ := hL sc Γ hc hm as hl
+  obtain ⟨σ', hargs, hm', htoks⟩ := hL sc Γ hc hm hro as hl
   have hlen := rdList_length hl
   have hminus : f = "-" → ∀ a, as = [a] → (isNumConst a.1).isSome = true := by
     intro hfm a haa
@@ -99,14 +138,16 @@ theorem agree_app (env : SEnv) (ρ : List (String × Sym)) (f : String) (args : 
 /-- `(f args…)` for a declared function -/
 theorem agree_user (env : SEnv) (ρ : List (String × Sym)) (hd : String) (args : List Sexp) (hu : userHead hd = true)
     (hL : AgreeListAt env ρ args) : AgreeAt env ρ (.list (.atom hd :: args)) := by
-  intro sc Γ lone hc hm u τ h
+  intro sc Γ lone hc hm hro u τ h
   unfold userHead at hu
   cases hsn : symName? hd with
   | none => simp [hsn] at hu
   | some n =>
     simp only [hsn, Bool.not_eq_true'] at hu
+    obtain ⟨e1, e2, e3, _⟩ := sym_not_special hsn
+    rw [RotOK_app env sc hd args e1 (by simp [e2, e3])] at hro
     obtain ⟨as, hl, hne, hls, hap⟩ := rd_user_inv env sc hd n hsn hu args u τ h
-    obtain ⟨σ', hargs, hm', htoks⟩ := hL sc Γ hc hm as hl
+    obtain ⟨σ', hargs, hm', htoks⟩ := hL sc Γ hc hm hro as hl
     obtain ⟨s, hlf, hps, hag⟩ := ag_user env hc.nodefs n as u τ hne htoks hap
     have hnt : n ≠ "true" := by intro e; subst e; revert hu; decide
     have hnf : n ≠ "false" := by intro e; subst e; revert hu; decide
@@ -120,10 +161,12 @@ theorem agree_user (env : SEnv) (ρ : List (String × Sym)) (hd : String) (args 
 /-- `((_ f i…) args…)`, `((as const σ) arg)` -/
 theorem agree_headapp (env : SEnv) (ρ : List (String × Sym)) (hd args : List Sexp) (hf : fragHead hd = true)
     (hL : AgreeListAt env ρ args) : AgreeAt env ρ (.list (.list hd :: args)) := by
-  intro sc Γ lone hc hm u τ h
+  intro sc Γ lone hc hm hro u τ h
+  rw [RotOK_head, Bool.and_eq_true] at hro
   obtain ⟨as, hl, hap⟩ := rd_head_inv env sc hd args u τ h
-  obtain ⟨σ', hargs, hm', htoks⟩ := hL sc { Γ with mgr := Γ.mgr } (corr_mgr hc _) hm as hl
-  obtain ⟨fn, hnb, hrd, hag⟩ := head_agree env sc Γ hc hd hf as u τ htoks hap
+  obtain ⟨σ', hargs, hm', htoks⟩ := hL sc { Γ with mgr := Γ.mgr } (corr_mgr hc _) hm hro.2 as hl
+  have hrot := rot_of_headOK env sc hd args as hro.1 hl u τ hap
+  obtain ⟨fn, hnb, hrd, hag⟩ := head_agree env sc Γ hc hd hf as u τ htoks hrot hap
   refine ⟨σ', ?_, hm', hag.2⟩
   rw [rdVal_head Γ lone hd args fn Γ.mgr hnb hrd, hargs]
   simp only [hag.1]
